@@ -1,0 +1,35 @@
+//go:build verif
+
+package badger
+
+import (
+	"fmt"
+	"os"
+	"sync"
+)
+
+// Verification hook (build tag verif only): marks the boundaries between successive durable
+// writes of the node database. With VERIF_CRASH_LOG set, every boundary that is passed is
+// appended to that file as "name#occurrence"; with VERIF_CRASH_AT set to "name#occurrence" the
+// process exits abruptly (status 137) when that boundary is reached.
+var (
+	verifCrashMu    sync.Mutex
+	verifCrashCount = map[string]int{}
+)
+
+func verifCrashPoint(name string) {
+	verifCrashMu.Lock()
+	defer verifCrashMu.Unlock()
+
+	verifCrashCount[name]++
+	at := fmt.Sprintf("%s#%d", name, verifCrashCount[name])
+	if path := os.Getenv("VERIF_CRASH_LOG"); path != "" {
+		if f, err := os.OpenFile(path, os.O_APPEND|os.O_CREATE|os.O_WRONLY, 0o644); err == nil {
+			_, _ = f.WriteString(at + "\n")
+			_ = f.Close()
+		}
+	}
+	if want := os.Getenv("VERIF_CRASH_AT"); want != "" && want == at {
+		os.Exit(137)
+	}
+}
